@@ -330,7 +330,7 @@ func checkC02(c *Ctx) {
 			r.Unk("C02-LAY", name+"/encode-decode-identity", pos, fmt.Sprintf("encoder: %v; decoder: %v", lr.encErr, lr.decErr))
 			continue
 		}
-		n, bad := roundTrip(lr.enc, lr.dec, lr.u.decAlt)
+		n, bad := roundTrip(lr.enc, lr.dec, lr.u.decAlt, layoutFields(lr.u))
 		r.Check(len(bad) == 0 && n > 0, "C02-LAY", name+"/encode-decode-identity", pos, fmt.Sprintf("%d bit correspondences: every encoded field bit is decoded from the octet/bit it was written to, and vice versa", n), trunc(bad, 3))
 		// SYM
 		encF := map[string]bool{}
